@@ -32,6 +32,7 @@ def main():
     meta = {"meta": True}
     try:
         import ginjax  # noqa: F401  (from the current tree)
+        import ginjax.geometric, ginjax.ml, ginjax.models  # noqa: F401,E401  (ml before models: import cycle)
 
         src = os.path.dirname(os.path.abspath(ginjax.__file__))
         meta["ginjax_from"] = src
